@@ -18,7 +18,7 @@ Inductive ctx_mode := CtxCopyPtr | CtxShared.
 Inductive mainref :=
 | MNone    (* nil *)
 | MOpen    (* an open update transaction *)
-| MDead.   (* a transaction that somebody else already committed (discarded) *)
+| MDead.   (* a transaction with writes that somebody else already committed (discarded) *)
 
 Record idstate := {
   disk : list (str * N);     (* committed URIToID / IDToURI pairs (both keys are written together) *)
@@ -28,13 +28,15 @@ Record idstate := {
   ctxs : list (option nat);  (* per contextual store: the transaction its [idtxn] field captured *)
   nxt : N; leased : N;       (* badger.Sequence in memory *)
   dseq : N;                  (* the persisted lease bound (key "uriids") *)
+  wgens : list nat;          (* transactions that were committed with pending writes: committing one of
+                                these again fails, committing a discarded *empty* one is a silent no-op *)
   hist : list (str * N)      (* ghost: every (uri, id) ever returned by assertIDForURI *)
 }.
 
 (** a fresh database, after Open (GetSequence persists the first lease) *)
 Definition id_init (L : N) : idstate :=
   {| disk := []; pend := []; mref := MNone; gen := 0; ctxs := [];
-     nxt := 0; leased := L; dseq := L; hist := [] |}.
+     nxt := 0; leased := L; dseq := L; wgens := []; hist := [] |}.
 
 (** what a lookup inside the id transaction sees (keys of [pend] and [disk] are disjoint) *)
 Definition view (st : idstate) : list (str * N) := disk st ++ pend st.
@@ -44,7 +46,7 @@ Definition seq_next (L : N) (st : idstate) : N * idstate :=
   let '(n, l, d) := if leased st <=? nxt st then (dseq st, dseq st + L, dseq st + L)
                     else (nxt st, leased st, dseq st) in
   (n, {| disk := disk st; pend := pend st; mref := mref st; gen := gen st; ctxs := ctxs st;
-         nxt := n + 1; leased := l; dseq := d; hist := hist st |}).
+         nxt := n + 1; leased := l; dseq := d; wgens := wgens st; hist := hist st |}).
 
 Inductive idop :=
 | IAssert (u : str)         (* assertIDForURI, atomic under idmux *)
@@ -62,7 +64,8 @@ Inductive idout :=
 
 Definition do_commit (st : idstate) (r : mainref) (cs : list (option nat)) : idstate :=
   {| disk := disk st ++ pend st; pend := []; mref := r; gen := gen st; ctxs := cs;
-     nxt := nxt st; leased := leased st; dseq := dseq st; hist := hist st |}.
+     nxt := nxt st; leased := leased st; dseq := dseq st;
+     wgens := match pend st with [] => wgens st | _ => gen st :: wgens st end; hist := hist st |}.
 
 Definition commit_main (st : idstate) : idstate * idout :=
   match mref st with
@@ -86,9 +89,16 @@ Definition commit_ctx (m : ctx_mode) (k : nat) (st : idstate) : idstate * idout 
   | CtxCopyPtr =>
     match nth_error (ctxs st) k with
     | Some (Some g) =>
+      let forget :=   (* Txn.Commit without pending writes returns nil and leaves the transaction usable *)
+        ({| disk := disk st; pend := pend st; mref := mref st; gen := gen st; ctxs := replace_nth k None (ctxs st);
+            nxt := nxt st; leased := leased st; dseq := dseq st; wgens := wgens st; hist := hist st |}, ROk) in
       if is_open (mref st) && Nat.eqb g (gen st)
-      then (do_commit st MDead (replace_nth k None (ctxs st)), ROk)   (* the parent keeps the dead pointer *)
-      else (st, RErrDiscarded)
+      then match pend st with
+           | [] => forget
+           | _ => (do_commit st MDead (replace_nth k None (ctxs st)), ROk)   (* the parent keeps the dead pointer *)
+           end
+      else if existsb (Nat.eqb g) (wgens st) then (st, RErrDiscarded)
+      else forget
     | _ => (st, ROk)                                                  (* nil: "nothing to commit" *)
     end
   end.
@@ -104,12 +114,12 @@ Definition assert_id (L : N) (u : str) (st : idstate) : idstate * idout :=
       match slookup u (view st) with
       | Some i =>
         ({| disk := disk st; pend := pend st; mref := MOpen; gen := g; ctxs := ctxs st;
-            nxt := nxt st; leased := leased st; dseq := dseq st; hist := hist st ++ [(u, i)] |},
+            nxt := nxt st; leased := leased st; dseq := dseq st; wgens := wgens st; hist := hist st ++ [(u, i)] |},
          RId i false)
       | None =>
         let '(i, s1) := seq_next L st in
         ({| disk := disk s1; pend := pend s1 ++ [(u, i)]; mref := MOpen; gen := g; ctxs := ctxs s1;
-            nxt := nxt s1; leased := leased s1; dseq := dseq s1; hist := hist s1 ++ [(u, i)] |},
+            nxt := nxt s1; leased := leased s1; dseq := dseq s1; wgens := wgens s1; hist := hist s1 ++ [(u, i)] |},
          RId i true)
       end
     end
@@ -120,7 +130,7 @@ Definition assert_id (L : N) (u : str) (st : idstate) : idstate * idout :=
 Definition id_restart (L : N) (crash : bool) (st : idstate) : idstate :=
   let d := if crash then dseq st else if dseq st =? leased st then nxt st else dseq st in
   {| disk := disk st; pend := []; mref := MNone; gen := gen st; ctxs := [];
-     nxt := d; leased := d + L; dseq := d + L; hist := hist st |}.
+     nxt := d; leased := d + L; dseq := d + L; wgens := wgens st; hist := hist st |}.
 
 Definition id_step (m : ctx_mode) (L : N) (op : idop) (st : idstate) : idstate * idout :=
   match op with
@@ -129,7 +139,7 @@ Definition id_step (m : ctx_mode) (L : N) (op : idop) (st : idstate) : idstate *
   | INewCtx =>
     ({| disk := disk st; pend := pend st; mref := mref st; gen := gen st;
         ctxs := ctxs st ++ [match mref st with MNone => None | _ => Some (gen st) end];
-        nxt := nxt st; leased := leased st; dseq := dseq st; hist := hist st |}, ROk)
+        nxt := nxt st; leased := leased st; dseq := dseq st; wgens := wgens st; hist := hist st |}, ROk)
   | ICommitCtx k => commit_ctx m k st
   | IRestart crash => (id_restart L crash st, ROk)
   end.
